@@ -72,7 +72,7 @@ CASES = {
         corrupt=lambda t: t[0].__setitem__("execs", 1), at=0),
     "Trace_Bindings": dict(
         good=[{"ev": "init", "via": "init_device", "touched": 0, "cfg": {"sgio": False, "iscsi": True}, "dev": [47, 100, 101, 118, 47, 120], "rw": False, "ini": [105],
-               "default_ini": False, "class": "", "exc": "NotImplementedError", "opens": [], "connects": 0, "url": [], "ctx": []}],
+               "default_ini": False, "class": "", "exc": "NotImplementedError", "opens": [], "reopens": [], "connects": 0, "url": [], "ctx": []}],
         corrupt=lambda t: t[0].__setitem__("opens", [[[47, 100, 101, 118, 47, 120], "rb"]]), at=0),
     "Trace_Decoders": dict(
         good=[{"fmt": "ReportLuns", "len": 24, "steps": 60, "outcome": "returned"}],
